@@ -21,6 +21,7 @@ fn main() {
 		"sid": unsafe { libc::getsid(0) },
 		"cwd": std::env::current_dir().map(|p| p.display().to_string()).unwrap_or_default(),
 		"env": std::env::var_os("VERIF_X").map(|v| hex(v.as_bytes())),
+		"events_file": std::env::var_os("WATCHEXEC_EVENTS_FILE").is_some(),
 	});
 	let mut f = std::fs::File::create(out).expect("out file");
 	f.write_all(report.to_string().as_bytes()).unwrap();
